@@ -125,3 +125,55 @@ Example lifecycle_example :
   = [true; true; true; true; false; true; true; true] /\
   cur_gen (lrun empty_lstate calls) 0%N = 1%N.
 Proof. vm_compute. split; reflexivity. Qed.
+
+(* ---- a removed document stores no further change ------------------------------------ *)
+Lemma wget_wadd_zero l d g d' g' : wget (wadd l d' g' 0) d g = wget l d g.
+Proof.
+  induction l as [|[[a b] n] l IH]; cbn [wadd wget].
+  - destruct (N.eqb d' d && N.eqb g' g); reflexivity.
+  - destruct (N.eqb a d' && N.eqb b g') eqn:E; cbn [wget].
+    + destruct (N.eqb a d && N.eqb b g); [f_equal; lia|reflexivity].
+    + destruct (N.eqb a d && N.eqb b g); [reflexivity|exact IH].
+Qed.
+
+Lemma wget_wadd_other l d g d' g' k : (N.eqb d' d && N.eqb g' g) = false -> wget (wadd l d' g' k) d g = wget l d g.
+Proof.
+  intros H. induction l as [|[[a b] n] l IH]; cbn [wadd wget].
+  - now rewrite H.
+  - destruct (N.eqb a d' && N.eqb b g') eqn:E; cbn [wget].
+    + destruct (N.eqb a d && N.eqb b g) eqn:F; [|reflexivity].
+      exfalso. apply andb_prop in E. apply andb_prop in F. destruct E as [E1 E2], F as [F1 F2].
+      apply N.eqb_eq in E1, E2, F1, F2. subst. rewrite !N.eqb_refl in H. discriminate.
+    + destruct (N.eqb a d && N.eqb b g); [reflexivity|exact IH].
+Qed.
+
+(* whatever a sync, a detach or a second removal carries: the number of changes stored for a
+   removed document (key d, generation g) stays what it was.  (An attach of the key creates the
+   next generation: a different document.) *)
+Theorem removed_stores_no_further_change s call d g :
+  is_removed s d g = true ->
+  match call with LAttach _ _ _ | LAttachSame _ _ _ => False | _ => True end ->
+  wget (l_writes (snd (lstep s call))) d g = wget (l_writes s) d g.
+Proof.
+  intros H Hc.
+  assert (W : forall d' g' n, wget (wadd (l_writes s) d' g' (stored s d' g' n)) d g = wget (l_writes s) d g).
+  { intros d' g' n. destruct (N.eqb d' d && N.eqb g' g) eqn:E.
+    - apply andb_prop in E. destruct E as [E1 E2]. apply N.eqb_eq in E1, E2. subst.
+      unfold stored. rewrite H. apply wget_wadd_zero.
+    - now apply wget_wadd_other. }
+  destruct call as [c|c|c d' n|c d' n|c d' n|c d' n|c d' n]; try contradiction; cbn [lstep];
+    try reflexivity;
+    destruct (aget (l_clients s) c) as [x|]; try reflexivity;
+    try (destruct (find_doc (lc_docs x) d') as [dd|]; try reflexivity);
+    repeat match goal with
+           | |- context [if ?b then _ else _] => destruct b; cbn [fst snd l_writes set_client]
+           end;
+    try reflexivity; apply W.
+Qed.
+
+Example removed_stores_nothing_example :
+  let s := lrun empty_lstate [LActivate 0; LActivate 1; LAttach 0 0 1; LAttach 1 0 1; LRemove 0 0 1]%N in
+  is_removed s 0%N 0%N = true /\ wget (l_writes s) 0%N 0%N = 3 /\
+  fst (lstep s (LPushPull 1%N 0%N 2)) = true /\
+  wget (l_writes (snd (lstep s (LPushPull 1%N 0%N 2)))) 0%N 0%N = 3.
+Proof. vm_compute. repeat split; reflexivity. Qed.
